@@ -14,18 +14,18 @@ ALPH = {
     "half": alphabet(prices=(99.5, 99.75, 100, 100.5), vols=(1, 2), ttls=(None, 1)),
     # prices at and below one tick: 0.4 is accepted at 0.0 for a buy and at 1.0 for a sell
     # extreme values: a price of exactly zero, very large prices one tick apart, very large volumes
-    "extreme": alphabet(prices=(0.0, 1.0, 1e9, 1e9 + 1), vols=(1, 10 ** 6), ttls=(None,), mvols=(1, 10 ** 6), mttls=(None,), dead=(), cancels=2),
+    "extreme": alphabet(prices=(-1.0, 0.0, 1.0, 1e9, 1e9 + 1), vols=(1, 10 ** 6), ttls=(None,), mvols=(1, 10 ** 6), mttls=(None,), dead=(), cancels=2),
     # tick 0.1: mid-tick prices that both sides round onto the same level (0.25/0.35 -> 0.3, 1.15/1.25 -> 1.2), and the level itself
     "dec01": alphabet(prices=(0.25, 0.3, 0.35, 1.15, 1.25), vols=(1, 2), ttls=(None,), mttls=(None,), dead=(), cancels=2),
     # tick 1e-5 at the price level of the shipped samples: adjacent levels and a mid-tick price
     "fine": alphabet(prices=(299.99999, 300.0, 300.000005, 300.00001), vols=(1, 2), ttls=(None,), mttls=(None,), dead=(), cancels=2),
     "low": alphabet(prices=(0.4, 1, 2), vols=(1, 2), ttls=(None,), mttls=(None,), dead=(), cancels=2),
 }
-SEEDS_Q = ["deep", "ladder_buy", "ladder_sell", "partial", "crossed_off", "crossed_tie", "mo_one", "mo_both",
+SEEDS_Q = ["two_sided_no_trade", "deep", "ladder_buy", "ladder_sell", "partial", "crossed_off", "crossed_tie", "mo_one", "mo_both",
            "mo_both_eq", "expiring", "same_expiry", "multi_fill", "chunk4", "halftick"]
 
 
-KEY_SEEDS = ["ladder_buy", "ladder_sell", "multi_fill", "mo_both", "expiring", "same_expiry", "crossed_tie"]
+KEY_SEEDS = ["two_sided_no_trade", "ladder_buy", "ladder_sell", "multi_fill", "mo_both", "expiring", "same_expiry", "crossed_tie"]
 
 
 def plan(tier, d0=None, dseed=None):
